@@ -57,8 +57,17 @@ func ruleC01_6(c *Ctx) {
 	acceptsAnyMode := false
 	var endRet *sym.Event
 	for _, ev := range in.Events {
-		if ev.Kind != "return" || ev.Frame != fr || len(ev.Args) != 1 || ev.Args[0] == nil || !ev.Args[0].IsNil() {
+		if ev.Kind != "return" || ev.Frame != fr || len(ev.Args) != 1 || ev.Args[0] == nil {
 			continue
+		}
+		// a success return: the nil constant, or an error variable that can still be nil there (a loop written
+		// "for err == nil && len(src) > 0" with a single "return err" after it)
+		if !ev.Args[0].IsNil() {
+			isNil := sym.Bin(tokEQL, ev.Args[0], sym.Nil(ev.Args[0].T), nil)
+			can := ev.Args[0].Op == "atom" && !sym.CondsContradict([]*sym.Term{ev.Guard, isNil}) && impliesSomewhere(ev.Guard, isNil)
+			if !can {
+				continue
+			}
 		}
 		rb, mb := rootBlock(ev), rootBlock(mf)
 		if rb == nil || mb == nil || !reaches(mb.Index, rb.Index, fr) {
@@ -125,4 +134,27 @@ func ruleC01_6(c *Ctx) {
 		}
 	}
 	R.Check(ok, "encode.(*Encoder).Bytes#mode=Drawing:pending-operations", c.FPos(bytesFn), "error, or bytes that include the pending drawing operation", detail)
+}
+
+
+// impliesSomewhere: the literal occurs positively in the condition (one of its alternatives requires it).
+func impliesSomewhere(g, lit *sym.Term) bool {
+	found := false
+	var walk func(t *sym.Term, pos bool)
+	walk = func(t *sym.Term, pos bool) {
+		switch t.Op {
+		case "and", "or":
+			for _, a := range t.Args {
+				walk(a, pos)
+			}
+		case "not":
+			walk(t.Args[0], !pos)
+		default:
+			if pos && sym.Eq(t, lit) {
+				found = true
+			}
+		}
+	}
+	walk(g, true)
+	return found
 }
